@@ -322,4 +322,20 @@ theorem dictSet_fresh {β : Type} (d : List (String × β)) (k : String) (v : β
     have hne : ¬ (p.1 = k) := fun e => h.1 e.symm
     simp only [Py.dictSet, hne, ↓reduceIte, ih h.2, List.cons_append]
 
+/-- **`Task.__init__`** as the source reads now: `space_dimension` is the sum of the declared variables' sizes — the model's `dim` — whatever value
+the caller passed for it (C14, first clause) -/
+theorem task_init_eq (vars : List VarDecl) (hv : ∀ v ∈ vars, v.valid = true) (sd : Int) :
+    Src.task_init vars sd = .ok (vars, ((TaskDecl.dim ⟨vars⟩ : Nat) : Int)) := by
+  unfold Src.task_init TaskDecl.dim
+  simp only []
+  have h : ∀ l : List VarDecl, (∀ v ∈ l, v.valid = true) → (l.map (fun v => Src.vd_size v)).sum = (((l.map VarDecl.size).sum : Nat) : Int) := by
+    intro l hl
+    induction l with
+    | nil => rfl
+    | cons v vs ih =>
+      simp only [List.map_cons, List.sum_cons, vd_size_eq v (hl v List.mem_cons_self), ih (fun w hw => hl w (List.mem_cons_of_mem _ hw))]
+      omega
+  rw [h vars hv]
+  rfl
+
 end R14
